@@ -392,14 +392,14 @@ fn restore_strategy(ctx: &Ctx) -> BoxedStrategy<RestoreCase> {
 }
 
 pub fn property(ctx: &Ctx) -> Property {
-    let (c1, c2, c3) = (ctx.clone(), ctx.clone(), ctx.clone());
+    let (c1, c2, c3, c4) = (ctx.clone(), ctx.clone(), ctx.clone(), ctx.clone());
     Property {
         id: "C11",
-        rule: "part fill: random polygon/curve paths, every source kind, 28 modes, all invertible transform classes: fill under T must equal, bit for bit, filling Path::transform(T) of the path under the identity with the source's transform preceded by T^-1 (sources live in user space). part stroke: polylines stroked (all caps/joins/dashes) under a similarity must match stroking the transformed polyline with width, dashes and offset scaled (line width scales with T) up to one quarter-sample flip per edge. part singular: every drawing call except mask/clear under non-invertible T changes nothing. part device: push_clip_rect (probed by an identity-transform fill), mask geometry with solid sources, copy_surface, blend_surface, blend_surface_with_alpha give identical pixels under any T. part restore: get_transform() is bit-equal after clear() and pop_layer (with/without clip) and a following draw equals the draw with T re-set. Non-trivial: T not identity/integer translation (fill), scale away from 1 (stroke), non-identity T (device/restore); distinct by hash of the case.",
+        rule: "part fill: random polygon/curve paths, every source kind, 28 modes, all invertible transform classes: fill under T must equal, bit for bit, filling Path::transform(T) of the path under the identity with the source's transform preceded by T^-1 (sources live in user space). part stroke: polylines stroked (all caps/joins/dashes) under a similarity must match stroking the transformed polyline with width, dashes and offset scaled (line width scales with T) up to one quarter-sample flip per edge. part singular: every drawing call except mask/clear under non-invertible T changes nothing. part device: push_clip_rect (probed by an identity-transform fill), mask geometry with solid sources, copy_surface, blend_surface, blend_surface_with_alpha give identical pixels under any T. part restore: get_transform() is bit-equal after clear() and pop_layer (with/without clip) and a following draw equals the draw with T re-set. parts gradient-under-ctm / image-under-ctm: C12's gradient cases and C13's image cases with a non-identity current transform (incl. mirrored, sheared and zoomed user spaces), colour judged absolutely at T^-1 of the pixel centre by those properties' oracles. Non-trivial: T not identity/integer translation (fill), scale away from 1 (stroke), non-identity T (device/restore); distinct by hash of the case.",
         assumptions: vec![
             "mask() under a singular transform is not judged (the statement allows both readings)",
             "stroke part: the two sides differ by f32 rounding of positions, which the quarter-pixel vertex truncation can amplify to 1/4 px: alpha differences up to 80/255 (polylines) resp. 140/255 (curves, 0.2 px flattening difference) per pixel are accepted; a width that does not scale differs by 255 on whole bands",
-            "the semantic positioning of image/gradient sources under random CTMs is judged by C12/C13",
+            "parts gradient-under-ctm and image-under-ctm reuse C12's and C13's generators and oracles (their assumptions apply)",
         ],
         parts: vec![
             part("fill", 80_000, 1_500_000, move || fill_strategy(&c1), check_fill),
@@ -407,6 +407,12 @@ pub fn property(ctx: &Ctx) -> Property {
             part("singular", 20_000, 300_000, move || singular_strategy(&c2), check_singular),
             part("device", 30_000, 500_000, device_strategy, check_device),
             part("restore", 30_000, 400_000, move || restore_strategy(&c3), check_restore),
+            // "a pixel's colour is the source evaluated at T^-1 of the pixel centre": part fill compares two routes
+            // that hand the library the same device-to-source matrix, so a slip in how that matrix is *used* hides
+            // from it; these two parts judge the colour absolutely, with C12's gradient oracle and C13's image
+            // oracle, on cases whose current transform is not the identity
+            part("gradient-under-ctm", 12_000, 200_000, move || super::c12::strategy(&c4).prop_filter("non-identity CTM", |c| c.ctm != IDENT).boxed(), super::c12::check),
+            part("image-under-ctm", 20_000, 300_000, || super::c13::strategy().prop_filter("non-identity CTM", |c| c.ctm != IDENT).boxed(), super::c13::check),
         ],
         min_class_fraction: vec![("fill", "src:image", 0.1), ("fill", "image:linear-parts-cancel-to-integer-translation", 0.01), ("fill", "xf:general", 0.05), ("fill", "xf:rotation", 0.05), ("stroke", "dashed", 0.1), ("stroke", "curved-input", 0.25), ("restore", "pop_layer", 0.3)],
         panic_is_violation: false,
